@@ -67,7 +67,7 @@ def classes(prog, r):
     return out
 
 
-CHECK = ProfileCheck(PROFILE, ["c10", "c05", "c06"], nontrivial, classes, directed=__import__("vp.flo.gen", fromlist=["x"]).suspend_scenario, directed_share=2)
+CHECK = ProfileCheck(PROFILE, ["c10", "c05", "c06"], nontrivial, classes, directed=__import__("vp.flo.gen", fromlist=["x"]).cond_scenarios, directed_share=2)
 RULE = ("Hypothesis-generated programs with conditional auxiliaries at several depths, toggling conditions, auxes completing immediately / later / never; "
         "history invariants on activation, suspension, completion and exit + C05/C06 invariants + reference differential. non-trivial = a "
         "conditional aux suspends for >= 2 consecutive runs and then completes; distinct = distinct program AST")
